@@ -23,6 +23,7 @@ type c12W struct {
 	Prog   []string         `json:"prog"`
 	Family string           `json:"family"`
 	Limit  int              `json:"limit"` // >0: a limit(k) follows the loop (cancellation)
+	Volume bool             `json:"volume,omitempty"`
 }
 
 func init() {
@@ -43,6 +44,18 @@ func genC12(r *Rng, tier string) *c12W {
 		w.Run.Policy = int(simrt.PolStarve)
 		w.Run.StarveSite = ""
 		w.Run.StarveIdx = r.Intn(24)
+	}
+	if r.Chance(3) {
+		// data volume: a pass larger than any capacity in the cycle
+		var prog []*gripql.GraphStatement
+		w.Graph, prog, w.Family = gen.LoopVolume(r)
+		w.Volume = true
+		w.Run.Policy = r.Intn(int(simrt.NumPolicies))
+		if simrt.Policy(w.Run.Policy) == simrt.PolStarve {
+			w.Run.Policy = int(simrt.PolRandom)
+		}
+		w.Prog = gen.StmtsJSON(prog)
+		return w
 	}
 	w.Graph = gen.Graph(r, gen.GraphOpts{MaxV: 6, MaxE: 9, NoDangling: r.Chance(70)})
 	prog, fam := gen.LoopProgram(r, w.Graph)
@@ -129,9 +142,12 @@ func execC12(w *c12W, x *Exec) *Outcome {
 		o.Inconclusive = "reference: " + spec.Err
 		return o
 	}
-	if len(spec.Rows) > 3000 {
+	if len(spec.Rows) > 3000 && !w.Volume {
 		o.Inconclusive = "reference result too large"
 		return o
+	}
+	if w.Volume {
+		o.Count("fault:pass_larger_than_cycle_capacity", 1)
 	}
 	if w.Limit > 0 {
 		n := len(spec.Rows)
@@ -143,6 +159,9 @@ func execC12(w *c12W, x *Exec) *Outcome {
 	cfg := w.Run.Sim()
 	if cfg.MaxSteps == 0 {
 		cfg.MaxSteps = 400000
+	}
+	if w.Volume {
+		cfg.MaxSteps = 6000000
 	}
 	tr := runTraversal(x, cfg, w.Graph, stmts, travOpts{CancelAfter: -1})
 	if tr.Bubble.Verdict == simrt.Budget && simrt.Policy(w.Run.Policy) != simrt.PolRR {
